@@ -24,6 +24,10 @@ def check_details(case, cfg, built, out, out_plain):
     det = out.details
     mult = list(det.voter_multiplicity)
     entries = built.entries()
+    if cfg.get("sp_repr") == "other":
+        entries = rules.Built(case, multi=not built.multi).entries()  # the voters are those of the satisfaction profile handed over
+    elif cfg.get("sp_repr") == "direct-multi":
+        entries = rules.Built(case, multi=True).entries()
     its = det.iterations
     if sorted(p.name for p in out) != sorted(p.name for p in out_plain):
         vs.append(violation("requesting run details changes the outcome", case, cfg, impl=sorted(p.name for p in out), expected=sorted(p.name for p in out_plain), sig=dict(sig, clause="neutral")))
@@ -177,6 +181,9 @@ def pairs(ctx, n):
         cfg["analytics"] = True
         if rng.random() < 0.3:
             cfg["inc"] = F(rng.choice([1, F(1, 2), 2, F(1, 3)]))
+        if rng.random() < 0.12:
+            # the two representations mixed in one call (round 7, C07-r7A): the record is about the voters of the satisfaction profile
+            cfg.update(sp_sat=cfg["sat"], sp_repr=rng.choice(["other", "direct-multi"]), sp_only=True)
         yield case, cfg
 
 
@@ -240,7 +247,7 @@ def run(ctx, n=None, compare=True):
         ctx.violations.extend(vs)
         if st.get("selecting", 0) >= 2 and st.get("capped"):
             ctx.nontrivial.add(case.key() + json.dumps(ruleprops.cfg_json(cfg), sort_keys=True))
-        if compare and out is not None:
+        if compare and out is not None and not cfg.get("sp_repr"):
             b0 = toF(out.details.iterations[0].voters_budget[0]) if out.details.iterations and len(out.details.iterations[0].voters_budget) else F(0)
             line = "mestrace " + case.enc_common(built.entries(), built.enum()) + f" tie={cfg.get('tie', 'lexico')} init= b0={core.q2s(b0)} " + rules.sat_tokens(built, cfg)
             lines.append(line)
